@@ -20,14 +20,29 @@ META = {
     "property_id": "C13",
     "design_ref": "DESIGN.md §4 C13",
     "technique": "Coq proof by induction over step histories on a discrete model of the failure-tolerance protocol (masked index list, per-block counters, per-factor stored-matrix tokens) + correspondence with the real optimizer under injected fault scripts, evaluated by vm_compute inside coqc; certified checker on the observed run",
-    "level_text": "Theorems for every history of step inputs (presence selector per block, routine outcome and factor-matrix finiteness per factor), every tolerance N, frequency, start step and block layout, on the Gallina model of DistributedShampoo.step / _amortized_computation / _raise_exception_if_failure_tolerance_exceeded / compress_preconditioner_list: the failure counter equals the number of consecutive failed refreshes the block took part in, computed from the inputs and the exceptions alone (refinement); the tolerance error for block b is raised iff that number exceeds N; a clean refresh resets it; a failed computation keeps the stored matrix; stored matrices are finite in every reachable state; a raising step writes no parameter; NaN/Inf in a factor matrix or computed matrix of a present block at a refresh makes the step raise and the PreconditionerValueError names the first such factor; the model's own observations satisfy the checker's specification. Both list classes follow the same protocol and share the model. The model is tied to the code by running the real optimizer (Shampoo, SOAP eigh, SOAP QR; 2-4 parameters, some blocked, some with ignored dims) on seeded presence histories x fault scripts x NaN/Inf gradients and comparing every step inside coqc.",
-    "level_note": "Trusted: Coq kernel+vm_compute; the hand-written model (checked against the code on the generated histories only); the harness (mock.patch of matrix_inverse_root / matrix_eigenvectors in shampoo_preconditioner_list, parsing of the block/factor named in exception messages, identification of a stored matrix with the routine result it equals bitwise). Matrices are abstracted to tokens: numerical content of roots/eigenvectors is C10-C12's subject. Single process, default Distributor (local blocks = all blocks).",
+    "level_text": "Theorems for every history of step inputs (presence selector per block, routine outcome and factor-matrix finiteness per factor), every tolerance N, frequency, start step and block layout, on the Gallina model of DistributedShampoo.step / _amortized_computation / _raise_exception_if_failure_tolerance_exceeded / compress_preconditioner_list: the failure counter equals the number of consecutive failed refreshes the block took part in, computed from the inputs and the exceptions alone (refinement); the tolerance error for block b is raised iff that number exceeds N; a clean refresh resets it; a failed computation keeps the stored matrix; stored matrices are finite in every reachable state, where a routine result that is finite in the factor dtype but overflows the dtype it is stored in (SuccessOverflowsStorage, e.g. a float32 root 1e6 for a float16 parameter) counts as non-finite and makes the step raise; a raising step writes no parameter; NaN/Inf in a factor matrix or computed matrix of a present block at a refresh makes the step raise and the PreconditionerValueError names the first such factor; the model's own observations satisfy the checker's specification. Both list classes follow the same protocol and share the model. The model is tied to the code by running the real optimizer (Shampoo, SOAP eigh, SOAP QR; 2-4 parameters, some blocked, some with ignored dims; parameter/factor dtypes float32/float32, float64/float64, float16/float32, bfloat16/float32, float32/float64) on seeded presence histories x fault scripts x NaN/Inf gradients and comparing every step inside coqc.",
+    "level_note": "Trusted: Coq kernel+vm_compute; the hand-written model (checked against the code on the generated histories only); the harness (mock.patch of matrix_inverse_root / matrix_eigenvectors in shampoo_preconditioner_list, parsing of the block/factor named in exception messages, identification of a stored matrix with the routine result it equals bitwise). Matrices are abstracted to tokens: numerical content of roots/eigenvectors is C10-C12's subject. Single process, default Distributor (local blocks = all blocks). The model states the cast-then-check protocol for both list classes; the SOAP list of the code checks before the narrowing copy_, which the check reports as finding C13:soap-eigvec-storage-overflow (reachable only when the eigenvector routine returns a finite matrix that overflows the storage dtype, i.e. under fault injection).",
     "ready": True,
 }
 
 KINDS = ("shampoo", "soap_eigh", "soap_qr")
 SHAPE_POOL = ((3, 4), (3, 4), (4, 3), (2, 2), (5,), (3,), (2, 3, 2), (4, 6), (1, 3))
-CODE2COQ = {"ok": "Success", "raise": "Fail", "nan": "SuccessNonFinite", "inf": "SuccessNonFinite"}
+CODE2COQ = {"ok": "Success", "raise": "Fail", "nan": "SuccessNonFinite", "inf": "SuccessNonFinite", "ovf": "SuccessOverflowsStorage"}
+# parameter (= storage) dtype / preconditioner (factor matrix) dtype; the last three narrow at the store
+PDTYPES = {"f32": ("float32", "float32"), "f64": ("float64", "float64"), "f16": ("float16", "float32"),
+           "bf16": ("bfloat16", "float32"), "f32_pre64": ("float32", "float64")}
+NARROWING = ("f16", "bf16", "f32_pre64")
+SOAP_OVERFLOW_SIG = "C13:soap-eigvec-storage-overflow"
+
+
+def pdtype_of(config) -> str:
+    return config.get("pdtype") or ("f64" if config.get("f64") else "f32")
+
+
+def overflow_value(storage_dtype) -> float:
+    """A value finite in the factor dtype that is not finite in the storage dtype."""
+    import torch
+    return {torch.float16: 1e6, torch.bfloat16: 3.4e38, torch.float32: 1e39}[storage_dtype]
 
 
 # ----------------------------------------------------------------------------------------------
@@ -46,9 +61,9 @@ def build(config):
     )
     from matrix_functions_types import EighEigenvectorConfig, QRConfig
 
-    dtype = torch.float64 if config["f64"] else torch.float32
+    dtype, pre_dtype = (getattr(torch, x) for x in PDTYPES[pdtype_of(config)])
     g = torch.Generator().manual_seed(config["pseed"])
-    params = [torch.nn.Parameter(torch.randn(tuple(sh), generator=g, dtype=dtype)) for sh in config["shapes"]]
+    params = [torch.nn.Parameter(torch.randn(tuple(sh), generator=g, dtype=torch.float32).to(dtype)) for sh in config["shapes"]]
     kind = config["kind"]
     kw = dict(num_tolerated_failed_amortized_computations=config["N"], ignored_dims=list(config["ignored_dims"]))
     if kind == "shampoo":
@@ -62,7 +77,7 @@ def build(config):
         max_preconditioner_dim=config["mpd"], precondition_frequency=config["freq"],
         start_preconditioning_step=config["start"], use_merge_dims=config["merge"],
         grafting_config=AdaGradGraftingConfig(epsilon=1e-8) if config["graft"] else None,
-        preconditioner_dtype=dtype, preconditioner_config=pc,
+        preconditioner_dtype=pre_dtype, preconditioner_config=pc,
     )
     sl = opt._per_group_state_lists[0]
     plist, dist = sl[SHAMPOO_PRECONDITIONER_LIST], sl[DISTRIBUTOR]
@@ -117,28 +132,31 @@ def run_impl(config, history):
             if code == "raise":
                 st["rec"][(b, k)] = "raise"
                 raise RuntimeError("injected failure of the matrix routine")
-            if code in ("nan", "inf"):
-                st["rec"][(b, k)] = code
-                m = torch.eye(A.shape[0], dtype=A.dtype)
-                m[0, 0] = float(code)
-                return m
-            try:
-                r = real[name](*a, **kw)
-            except Exception:
-                st["rec"][(b, k)] = "raise"
-                raise
-            if bool(torch.isfinite(r).all()):
+            sdt = stored[b][k].dtype if b is not None else A.dtype      # dtype the result will be stored in
+            if code in ("nan", "inf", "ovf"):
+                r = torch.eye(A.shape[0], dtype=A.dtype)
+                r[0, 0] = float(code) if code != "ovf" else overflow_value(sdt)   # KeyError for a non-narrowing store: never generated
+            else:
+                try:
+                    r = real[name](*a, **kw)
+                except Exception:
+                    st["rec"][(b, k)] = "raise"
+                    raise
+            # classify what the routine returned: finite / finite only before the narrowing store / not finite
+            if not bool(torch.isfinite(r).all()):
+                st["rec"][(b, k)] = "nan"
+            elif not bool(torch.isfinite(r.to(dtype=sdt)).all()):
+                st["rec"][(b, k)] = "ovf"
+            else:
                 st["rec"][(b, k)] = "ok"
                 if b is not None:
                     results[(b, k)].append((st["tick"], r.detach().clone()))
-            else:
-                st["rec"][(b, k)] = "nan"
             return r
         return wrapper
 
     def bits(t):
         c = t.detach().clone().contiguous()
-        return c.view(torch.int64 if c.dtype == torch.float64 else torch.int32)
+        return c.view({8: torch.int64, 4: torch.int32, 2: torch.int16}[c.element_size()])
 
     observations = []
     with mock.patch.object(plmod, "matrix_inverse_root", make_wrapper("matrix_inverse_root")), \
@@ -147,12 +165,12 @@ def run_impl(config, history):
             g = torch.Generator().manual_seed(stp["gseed"])
             for pi, p in enumerate(params):
                 if stp["present"][pi]:
-                    gr = torch.randn(p.shape, generator=g, dtype=p.dtype)
+                    gr = torch.randn(p.shape, generator=g, dtype=torch.float32).to(p.dtype)
                     if stp["poison"][pi]:
                         gr.view(-1)[0] = float(stp["poison"][pi])
                     p.grad = gr
                 else:
-                    torch.randn(p.shape, generator=g, dtype=p.dtype)
+                    torch.randn(p.shape, generator=g, dtype=torch.float32)
                     p.grad = None
             present_b = [bool(stp["present"][block2param[b]]) for b in range(nbk)]
             st.update(calls=0, tick=tick, rec={}, order_ok=True,
@@ -225,7 +243,7 @@ def gen_config(rng: random.Random) -> dict:
         "kind": kind, "N": rng.choice((0, 0, 1, 1, 2, 2, 3, 4)), "freq": freq, "start": start, "shapes": shapes,
         "mpd": mpd, "merge": rng.random() < 0.2, "ignored_dims": rng.choice(([], [], [], [0], [1])),
         "beta1": rng.choice((0.0, 0.9)), "beta2": rng.choice((1.0, 0.999, 0.9)), "graft": rng.random() < 0.6,
-        "f64": rng.random() < 0.4, "pseed": rng.randrange(1 << 30),
+        "pdtype": rng.choice(("f32", "f32", "f64", "f64", "f16", "f16", "bf16", "f32_pre64")), "pseed": rng.randrange(1 << 30),
     }
 
 
@@ -236,6 +254,8 @@ def gen_history(rng: random.Random, config: dict, nfs: list, block2param: list, 
     pres_kind = rng.choice(("all", "toggle", "toggle", "random", "random", "windows"))
     fault_kind = rng.choice(("none", "always", "always", "random", "random", "random", "burst"))
     nonfinite = rng.random() < 0.25        # routine returns NaN/Inf somewhere
+    narrowing = pdtype_of(config) in NARROWING
+    overflow = narrowing and rng.random() < 0.5   # routine returns a finite matrix that overflows the storage dtype
     poison = rng.random() < 0.15           # a NaN/Inf gradient somewhere
     p_pres = rng.choice((0.4, 0.7, 0.9))
     p_fault = rng.choice((0.2, 0.5, 0.8, 1.0))
@@ -271,11 +291,13 @@ def gen_history(rng: random.Random, config: dict, nfs: list, block2param: list, 
                     code = "raise"
                 if nonfinite and rng.random() < 0.04:
                     code = rng.choice(("nan", "inf"))
+                if overflow and rng.random() < 0.06:
+                    code = "ovf"
                 row.append(code)
             script.append(row)
         pz = [rng.choice(("nan", "inf")) if (poison and pres[pi] and rng.random() < 0.06) else None for pi in range(nparams)]
         hist.append({"present": pres, "script": script, "gseed": rng.randrange(1 << 30), "poison": pz})
-    return hist, {"presence": pres_kind, "faults": fault_kind, "nonfinite_results": nonfinite, "poison": poison}
+    return hist, {"presence": pres_kind, "faults": fault_kind, "nonfinite_results": nonfinite, "poison": poison, "storage_overflow": overflow}
 
 
 def make_case(seed_tier):
@@ -295,7 +317,7 @@ def make_explicit(args):
 
 
 ENUM_BASE = {"shapes": [[3], [3]], "mpd": 1024, "merge": False, "ignored_dims": [], "beta1": 0.0, "beta2": 1.0, "graft": False,
-             "f64": False, "pseed": 7}
+             "pdtype": "f32", "pseed": 7}
 
 
 def enum_cases(kind: str, N: int, freq: int, start: int, length: int):
@@ -419,7 +441,7 @@ def signature_of(config, history) -> str:
     """Stable signature of a failing input: computed from the input only."""
     sel_changes = sum(1 for a, b in zip(history, history[1:]) if a["present"] != b["present"])
     faults = any(c == "raise" for s in history for row in s["script"] for c in row)
-    nonfin = any(c in ("nan", "inf") for s in history for row in s["script"] for c in row) or any(p for s in history for p in s["poison"])
+    nonfin = any(c in ("nan", "inf", "ovf") for s in history for row in s["script"] for c in row) or any(p for s in history for p in s["poison"])
     return "C13:" + ("mask-change+" if sel_changes else "const-mask+") + ("failures" if faults else "nofail") + ("+nonfinite" if nonfin else "")
 
 
@@ -431,13 +453,14 @@ def drop_param(config, history, b2p, pi):
     return cfg2, h2
 
 
-def shrink(ck: Check, pool, case, which: int):
+def shrink(ck: Check, pool, case, which: int, tag: str = "main"):
     """Greedy shrink of a failing case (which: 1 = behaviour checker false, 2 = full checker false)."""
     config, history, nfs, b2p, obs = case["config"], list(case["history"]), case["nfs"], case["b2p"], case["obs"]
     # 1. shortest failing prefix (a prefix of a run is the run of the prefix: no re-run needed)
     pref = [(config, nfs, obs[:L]) for L in range(1, len(history) + 1)]
-    r = eval_cases(ck, "shr_prefix", pref)
-    L = next((i + 1 for i, x in enumerate(r) if not x[which]), len(history))
+    keep_class = (lambda cfg, ob: (cfg["kind"] != "shampoo" and any(x == "ovf" for o in ob for row in o["rout"] for x in row)) == (tag == "soapovf"))
+    r = eval_cases(ck, f"shr_{tag}_prefix", pref)
+    L = next((i + 1 for i, x in enumerate(r) if not x[which] and keep_class(config, obs[:i + 1])), len(history))
     history, obs = history[:L], obs[:L]
     # 2. drop parameters / single steps, simplify steps, while the checker still fails (each candidate is re-run)
     for _round in range(8):
@@ -455,7 +478,7 @@ def shrink(ck: Check, pool, case, which: int):
             if not all(s["present"]):
                 cands.append((config, history[:j] + [dict(s, present=[True] * len(s["present"]))] + history[j + 1:]))
         for key, val in (("mpd", 1024), ("ignored_dims", []), ("graft", False), ("beta1", 0.0), ("beta2", 1.0), ("merge", False)):
-            if config[key] != val:
+            if config.get(key) != val:
                 cands.append((dict(config, **{key: val}), history))
         if not cands:
             break
@@ -463,7 +486,10 @@ def shrink(ck: Check, pool, case, which: int):
         usable = [i for i, x in enumerate(runs) if x is not None]
         if not usable:
             break
-        rr = eval_cases(ck, f"shr_{_round}", [(cands[i][0], runs[i]["nfs"], runs[i]["obs"]) for i in usable])
+        usable = [i for i in usable if keep_class(cands[i][0], runs[i]["obs"])]
+        if not usable:
+            break
+        rr = eval_cases(ck, f"shr_{tag}_{_round}", [(cands[i][0], runs[i]["nfs"], runs[i]["obs"]) for i in usable])
         ok = [(len(runs[i]["nfs"]), len(cands[i][1]), sum(c != "ok" for s in cands[i][1] for row in s["script"] for c in row), i)
               for i, x in zip(usable, rr) if not x[which]]
         if not ok:
@@ -511,20 +537,35 @@ def run(ck: Check) -> None:
         unparsed = lambda c: any((o["out"][0] == "other" and o["out"][1].endswith("(unparsed)")) or not o["order_ok"] for o in c["obs"])  # noqa: E731
         beh_fail = [c for c, r in zip(cases, res) if not r[1] and not unparsed(c)]
         cnt_fail = [c for c, r in zip(cases, res) if r[1] and not r[2] and not unparsed(c)]
-        if beh_fail or cnt_fail:
-            which = 1 if beh_fail else 2
-            lst = sorted(beh_fail or cnt_fail, key=lambda c: (len(c["nfs"]), len(c["history"])))
+        # finding class "SOAP list stores a result that overflows the storage dtype": an eigenvector list whose routine
+        # actually returned such a matrix (recorded outcome "ovf") - a predicate over the input, reported separately
+        soap_ovf = lambda c: c["config"]["kind"] != "shampoo" and any(x == "ovf" for o in c["obs"] for row in o["rout"] for x in row)  # noqa: E731
+        groups = []
+        for tag, pred in (("soapovf", soap_ovf), ("main", lambda c: not soap_ovf(c))):
+            bf = [c for c in beh_fail if pred(c)]
+            cf = [c for c in cnt_fail if pred(c)]
+            if bf or cf:
+                groups.append((tag, 1 if bf else 2, bf or cf))
+        for tag, which, lst in groups:
+            lst = sorted(lst, key=lambda c: (len(c["nfs"]), len(c["history"])))
             c0 = lst[0]
-            config, history, nfs, obs = shrink(ck, pool, c0, which)
-            model = eval_cases(ck, "rep", [(config, nfs, obs)], with_show=True)[0][3]
-            what = ("real optimizer violates C13 (raise-iff-consecutive-failures / kept matrix / finite stored / no parameter write on raise): "
-                    if which == 1 else
-                    "failure counters of the real optimizer are not the number of consecutive failed refreshes (observable behaviour still passes): ")
-            ck.report(signature_of(config, history), what + describe(config, history, obs, nfs) + f" || model: {model}",
+            config, history, nfs, obs = shrink(ck, pool, c0, which, tag)
+            model = eval_cases(ck, f"rep_{tag}", [(config, nfs, obs)], with_show=True)[0][3]
+            if tag == "soapovf":
+                what = ("EigenvalueCorrectedShampooPreconditionerList stores a non-finite eigenvector matrix without raising: the NaN/Inf check "
+                        "inspects the routine's result in the factor dtype and copy_ narrows it to the parameter dtype afterwards (no cast before "
+                        "the check, unlike the Shampoo list); reachable only when the routine returns a finite matrix that overflows the storage dtype: ")
+                sig = SOAP_OVERFLOW_SIG
+            else:
+                what = ("real optimizer violates C13 (raise-iff-consecutive-failures / kept matrix / finite stored / no parameter write on raise): "
+                        if which == 1 else
+                        "failure counters of the real optimizer are not the number of consecutive failed refreshes (observable behaviour still passes): ")
+                sig = signature_of(config, history)
+            ck.report(sig, what + describe(config, history, obs, nfs) + f" || model: {model}",
                       {"kind": "property-fails", "config": config, "history": history, "nfs": nfs, "observed": obs, "model": model,
                        "n_failing_cases": len(lst), "predicate": "C13_behaviour_checkb" if which == 1 else "C13_checkb (counter clause)",
                        "original_seed_case": c0["seed"], "original_length": len(c0["history"])})
-        elif bad:
+        if not groups and bad:
             c0, _ = min(bad, key=lambda cr: len(cr[0]["history"]))
             model = eval_cases(ck, "rep", [(c0["config"], c0["nfs"], c0["obs"])], with_show=True)[0][3]
             ck.report(None, f"model/implementation correspondence broken on {len(bad)} histories (Failures.agree false; {sum(1 for c, _ in bad if unparsed(c))} of them with an unreadable exception message or an unexpected query order) and no observed run is decided to violate C13 by C13_checkb; first: "
@@ -559,7 +600,7 @@ def run(ck: Check) -> None:
             mask_and_fail += 1
     smp = []
     for c in (cases[ncorpus + 4321 % max(1, len(explicit) - ncorpus)], cases[len(explicit) + ncases // 2], cases[-1]):
-        smp.append({"config": {k: c["config"][k] for k in ("kind", "N", "freq", "start", "shapes", "mpd", "ignored_dims")}, "nfs": c["nfs"],
+        smp.append({"config": {k: c["config"][k] for k in ("kind", "N", "freq", "start", "shapes", "mpd", "ignored_dims")} | {"pdtype": pdtype_of(c["config"])}, "nfs": c["nfs"],
                     "steps": [{"present": "".join("1" if x else "0" for x in o["present_b"]), "routine": o["rout"], "out": o["out"], "counters": o["cnts"]} for o in c["obs"][:8]]})
     ck.coverage.update({
         "evaluations": len(cases),
@@ -574,7 +615,10 @@ def run(ck: Check) -> None:
             "start_minus_freq": hist(lambda c: c["config"]["start"] - c["config"]["freq"]), "local_blocks": hist(lambda c: len(c["nfs"])),
             "factors_per_block": hist(lambda c: sorted(set(c["nfs"]))), "presence": hist(lambda c: c["kinds"]["presence"]),
             "faults": hist(lambda c: c["kinds"]["faults"]), "nonfinite_results": hist(lambda c: c["kinds"]["nonfinite_results"]),
-            "nonfinite_gradients": hist(lambda c: c["kinds"]["poison"]), "history_length": hist(lambda c: len(c["history"]) // 5 * 5),
+            "nonfinite_gradients": hist(lambda c: c["kinds"]["poison"]),
+            "param_dtype/factor_dtype": hist(lambda c: "/".join(PDTYPES[pdtype_of(c["config"])])),
+            "histories_with_storage_overflow_result": sum(1 for c in cases if any(x == "ovf" for o in c["obs"] for row in o["rout"] for x in row)),
+            "history_length": hist(lambda c: len(c["history"]) // 5 * 5),
             "step_outcomes": outs, "histories_with_mask_change_and_failures": mask_and_fail,
         },
         "disagreements": len(bad), "behaviour_checker_failures": len(beh_fail), "counter_checker_failures": len(cnt_fail),
